@@ -50,6 +50,9 @@ def make_t3(envs):
         got = rtcat.p_core(f["P"])
         if got != a:
             return "parse gives %s but the reference gives %s" % (got[:160], (a or "")[:160])
+        cw = rtcat.c_vs_ref(f["C"], a)
+        if cw:
+            return cw
         if "PANIC" in f["P"] or "PANIC" in f["C"]:
             return "a stack operation panicked: %s" % f["P"][:80]
         en, sn = sid.split(".")
